@@ -276,6 +276,13 @@ def main():
   rep.coverage["rule"] = ("one evaluation = convert(v) then convert(convert(v)) on one (type instance, value) "
                           "pair with all four clauses checked; non-trivial and distinct = distinct pairs "
                           "for which convert did not return the identical input object")
+  # deductive part (all values, all types): exception flow of BaseColumnType.convert / safe_repr
+  from vlib.pysym import runner
+  rep.assumptions.append(
+    "deductive part: do_convert, str(value), repr(value) are arbitrary code that may return or "
+    "raise any Exception; type(obj).__name__ and str concatenation never raise; exceptions "
+    "outside Exception are out of scope")
+  runner.run_property(rep, "contracts.C22_convert", bounded=False)
   rep.coverage["types"] = names
   rep.coverage["pool_values"] = npool
   rep.coverage["random_values_per_type"] = N_RANDOM[tier]
